@@ -24,12 +24,15 @@ def scale(name, prop, flavour, count, extra=(), arenas=1):
 def dfault_jobs(prop, n, profile):
     # destructor panics: random histories in which collection calls and arena drops have their k-th
     # destructor panic, plus the enumeration of EVERY destructor index of every call of clean schedules
+    # composite, like C11: after the caught panic ALL of C01-C05 are judged on the continued history,
+    # and a faulted history is reported only if its fault-free twin is clean
+    own = ["--own", "C01,C02,C03,C04,C05"]
     return [
-        rnd("random-destructor-panics", prop, "dbg", n // 4, profile=profile, extra=["--dfaults"]),
-        rnd("random-destructor-panics", prop, "rel", n // 4, profile=profile, extra=["--dfaults"]),
-        rnd("random-destructor-panics", prop, "asan", n // 32, profile=profile, extra=["--dfaults"]),
-        dict(name="destructor-panic-enum", bin="gcmon", flavour="dbg", args=["faultenum", "--prop", prop, "--dfaults", "--profile", profile, "--count", max(64, n // 250)]),
-        dict(name="destructor-panic-enum", bin="gcmon", flavour="asan", args=["faultenum", "--prop", prop, "--dfaults", "--profile", profile, "--count", max(32, n // 1000)]),
+        rnd("random-destructor-panics", prop, "dbg", n // 4, profile=profile, extra=["--dfaults", "--twin"] + own),
+        rnd("random-destructor-panics", prop, "rel", n // 4, profile=profile, extra=["--dfaults", "--twin"] + own),
+        rnd("random-destructor-panics", prop, "asan", n // 32, profile=profile, extra=["--dfaults", "--twin"] + own),
+        dict(name="destructor-panic-enum", bin="gcmon", flavour="dbg", args=["faultenum", "--prop", prop, "--dfaults", "--profile", profile, "--count", max(64, n // 250)] + own),
+        dict(name="destructor-panic-enum", bin="gcmon", flavour="asan", args=["faultenum", "--prop", prop, "--dfaults", "--profile", profile, "--count", max(32, n // 1000)] + own),
     ]
 
 
@@ -104,7 +107,12 @@ def jobs_simple(prop, profile="general", matrix=None, miri_tables=None):
         js.append(scale("scale", prop, "asan", n // 320, extra=sx))
         if prop in ("C04", "C05"):
             js.extend(dfault_jobs(prop, n, profile))
-            js.append(scale("scale-destructor-panics", prop, "rel", n // 40, extra=["--dfaults"]))
+            js.append(scale("scale-destructor-panics", prop, "rel", n // 40, extra=["--dfaults", "--twin", "--own", "C01,C02,C03,C04,C05"]))
+        if prop == "C04":
+            # every payload form of the builders x every way of dying (layoutmon table `lifecycle`)
+            big = ["--big"] if tier == T else []
+            js.extend(lay("lifecycle", "C04", fl, "lifecycle", big, shards=2) for fl in ("dbg", "rel", "asan"))
+            js.append(miri("lifecycle-sample", "layoutmon", ["--prop", "C04", "--table", "lifecycle", "--shardmult", 4 if tier == Q else 1]))
         if prop == "C02":
             # end-to-end exactness through every provided container and through trait objects:
             # weakly held targets must be gone after two cycles, strongly held ones alive
